@@ -1,6 +1,7 @@
 package main
 
 import (
+	"sync"
 	"fmt"
 	"regexp"
 	"go/ast"
@@ -27,6 +28,9 @@ type Engine struct {
 	contracts map[string]*FuncContract
 	specFuncs map[string]specFuncSig
 	specLibs  map[string][]string // "<lib>.<theory>" -> SMT-LIB lines
+	specLibRaw map[string][]string // the same with (lemma ...) forms unexpanded
+	lemmaLibs  map[string]string   // pseudo function "lemmas.<lib>" -> library key
+	lemmaProps map[string][]string
 	slots     map[string]int64
 	typeIDs   map[string]int64
 	funcIDs   map[string]int64
@@ -36,7 +40,7 @@ type Engine struct {
 
 func NewEngine(repo, verifDir, tags string) (*Engine, error) {
 	e := &Engine{repo: repo, verifDir: verifDir, tags: tags, funcs: map[string]*ssa.Function{},
-		specFuncs: map[string]specFuncSig{}, specLibs: map[string][]string{}, slots: map[string]int64{},
+		specFuncs: map[string]specFuncSig{}, specLibs: map[string][]string{}, specLibRaw: map[string][]string{}, lemmaLibs: map[string]string{}, lemmaProps: map[string][]string{}, slots: map[string]int64{},
 		typeIDs: map[string]int64{}, funcIDs: map[string]int64{}, globIDs: map[string]int64{}, allPkgs: map[string]*types.Package{}}
 	cfg := &packages.Config{Mode: packages.LoadAllSyntax, Dir: repo, BuildFlags: []string{"-tags=" + tags},
 		Env: append(os.Environ(), "GOFLAGS=-mod=mod", "GOPROXY=off", "GOSUMDB=off", "GOTOOLCHAIN=local")}
@@ -120,6 +124,9 @@ func NewEngine(repo, verifDir, tags string) (*Engine, error) {
 		return nil, err
 	}
 	e.contracts = cs
+	for k, props := range e.lemmaProps {
+		e.contracts[k] = &FuncContract{Name: k, Pkg: "spec", Props: props, Loops: map[int]*LoopContract{}}
+	}
 	return e, nil
 }
 
@@ -187,9 +194,33 @@ func (e *Engine) loadSpecLibs() error {
 		if err != nil {
 			return fmt.Errorf("%s: %v", f, err)
 		}
-		e.specLibs[base] = forms
+		e.specLibRaw[base] = forms
 		lib := strings.SplitN(base, ".", 2)[0]
 		specPkgs[lib] = true
+		expanded := make([]string, 0, len(forms))
+		var lemmaProps []string
+		for _, form := range forms {
+			if strings.HasPrefix(form, "(lemma") {
+				l, err := parseLemma(form)
+				if err != nil {
+					return fmt.Errorf("%s: %v", f, err)
+				}
+				expanded = append(expanded, l.axiom())
+				for _, p := range l.Props {
+					if !hasProp(lemmaProps, p) {
+						lemmaProps = append(lemmaProps, p)
+					}
+				}
+				continue
+			}
+			expanded = append(expanded, form)
+		}
+		forms = expanded
+		e.specLibs[base] = forms
+		if lemmaProps != nil {
+			e.lemmaLibs["lemmas."+lib] = base
+			e.lemmaProps["lemmas."+lib] = lemmaProps
+		}
 		for _, form := range forms {
 			name, sig, ok := parseFunSig(form)
 			if ok {
@@ -340,7 +371,15 @@ func parseFunSig(form string) (string, specFuncSig, bool) {
 
 // ---------------------------------------------------------------------
 
+// rotation amounts with a defining axiom in the prelude: those of the spec libraries, and those
+// the translated code uses
+var specRols = map[int]bool{1: true, 7: true, 11: true, 12: true, 13: true, 17: true, 18: true}
+var usedRols = map[int]bool{}
+var usedRolsMu sync.Mutex
+
 func (e *Engine) prelude(th Theory, libs []string) []string {
+	usedRolsMu.Lock()
+	defer usedRolsMu.Unlock()
 	p := []string{
 		"(declare-datatypes ((Slice 0)) (((mk-slice (s-ptr Int) (s-len Int) (s-cap Int)))))",
 		"(declare-datatypes ((SliceBV 0)) (((mk-slicebv (sb-ptr (_ BitVec 64)) (sb-len (_ BitVec 64)) (sb-cap (_ BitVec 64))))))",
@@ -351,9 +390,27 @@ func (e *Engine) prelude(th Theory, libs []string) []string {
 		p = append(p, "(declare-fun dyntype (Int) Int)", "(declare-fun boxed-slice (Int) Slice)",
 			"(declare-fun idx (Int Int) Int)",
 			"(assert (forall ((b Int) (i Int)) (! (= (idx b i) (+ b i)) :pattern ((idx b i)))))",
+			// bitwise operations on (two's complement, unbounded) integers: uninterpreted, every fact
+			// used about them is stated at the use site; functional consistency is all that is added
+			"(declare-fun bit.and (Int Int) Int)", "(declare-fun bit.andnot (Int Int) Int)",
+			"(declare-fun bit.or (Int Int) Int)", "(declare-fun bit.xor (Int Int) Int)",
+			"(declare-fun u32.add (Int Int) Int)", "(declare-fun u32.sub (Int Int) Int)", "(declare-fun u32.mul (Int Int) Int)",
+			"(assert (forall ((a Int) (b Int)) (! (= (u32.add a b) (ite (>= (+ a b) 4294967296) (- (+ a b) 4294967296) (ite (< (+ a b) 0) (+ (+ a b) 4294967296) (+ a b)))) :pattern ((u32.add a b)))))",
+			"(assert (forall ((a Int) (b Int)) (! (= (u32.sub a b) (ite (>= (- a b) 4294967296) (- (- a b) 4294967296) (ite (< (- a b) 0) (+ (- a b) 4294967296) (- a b)))) :pattern ((u32.sub a b)))))",
+			"(assert (forall ((a Int) (b Int)) (! (= (u32.mul a b) (mod (* a b) 4294967296)) :pattern ((u32.mul a b)))))",
 			"(declare-fun errInner (Int) Int)",
 			"(assert (forall ((e Int)) (! (=> (and (>= e 0) (< e 1048576)) (= (errInner e) 0)) :pattern ((errInner e)))))",
 			"(define-fun errIs ((e Int) (t Int)) Bool (or (= e t) (and (not (= (errInner e) 0)) (or (= (errInner e) t) (and (not (= (errInner (errInner e)) 0)) (or (= (errInner (errInner e)) t) (= (errInner (errInner (errInner e))) t)))))))")
+	}
+	if th.named32 {
+		// rotations of a 32-bit value: the two shifted parts have no bit in common
+		for k := 1; k < 32; k++ {
+			if !specRols[k] && !usedRols[k] {
+				continue
+			}
+			p = append(p, fmt.Sprintf("(declare-fun u32.rol%d (Int) Int)", k),
+				fmt.Sprintf("(assert (forall ((a Int)) (! (= (u32.rol%d a) (+ (mod (* a %d) 4294967296) (div a %d))) :pattern ((u32.rol%d a)))))", k, int64(1)<<uint(k), int64(1)<<uint(32-k), k))
+		}
 	}
 	suffix := ".int"
 	if th.bv {
@@ -385,6 +442,9 @@ type funcResult struct {
 
 func (e *Engine) TranslateFunc(key string) (res *funcResult) {
 	fc := e.contracts[key]
+	if lib, ok := e.lemmaLibs[key]; ok {
+		return &funcResult{Key: key, Contract: fc, Obls: e.lemmaObligations(lib)}
+	}
 	if fc != nil && fc.Concurrent {
 		// two passes: the first discovers every heap / memory cell the fragment touches, so that
 		// interference points of the second havoc all of them
@@ -418,7 +478,7 @@ func (e *Engine) translateFunc(key string, preCells []*Cell) (res *funcResult) {
 			panic(r)
 		}
 	}()
-	th := Theory{bv: fc.Theory == "bv"}
+	th := Theory{bv: fc.Theory == "bv", named32: fc.Theory == "u32"}
 	t := &fnTrans{eng: e, th: th, fc: fc, fn: fn, globals: map[string]*Cell{}, cellTyp: map[string]types.Type{},
 		oldSnap: map[string]*Cell{}, callSeq: map[string]int{}, assumptions: map[string]bool{}, usedSpecFuncs: map[string]bool{}, usedAsserts: map[string]bool{}, constGlobals: map[string]int64{}, outside: map[string]int{}, preGlobals: preCells}
 	t.proc = &Proc{Name: key, Props: fc.Props}
@@ -462,6 +522,35 @@ func (e *Engine) translateFunc(key string, preCells []*Cell) (res *funcResult) {
 	envEntry := &specEnv{f: f, names: map[string]sval{}, fn: fn, entry: true}
 	for _, r := range fc.Requires {
 		entry.Assume(f.specBool(r.E, envEntry))
+		if r.Kind == "assumed" {
+			t.assumptions["assumed precondition of "+fc.Pkg+"."+fc.Name+": "+r.Text] = true
+		}
+	}
+	if fc.GhostEntry {
+		// ghost update at entry: the listed ghost state is re-defined by the ghostdef clauses
+		// (old(...) is the state the caller handed in); the clauses are proved again at exit
+		t.cur = entry
+		genv := f.bodyEnv(true)
+		for _, g := range fc.Ghost {
+			ge, err := ParseSpec(g)
+			if err != nil {
+				fail("%v", err)
+			}
+			for _, lv := range f.specLvals(ge, genv) {
+				if lv.kind != lvField || !strings.HasPrefix(lv.heap.Name, "H_$") {
+					fail("ghost: %s is not ghost state", g)
+				}
+				_, es := lv.heap.S.ArrayParts()
+				v := t.havocTemp("ghost", es, lv.typ)
+				t.cur.Assign(lv.heap, Store(lv.heap, lv.idx, v))
+			}
+		}
+		for _, e := range fc.Ensures {
+			if e.Kind == "ghostdef" {
+				t.cur.Assume(f.specBool(e.E, genv))
+			}
+		}
+		t.assumptions["ghost state updated at entry by definitional clauses (ghostdef) of "+fc.Pkg+"."+fc.Name] = true
 	}
 	// frame
 	for _, m := range fc.Modifies {
@@ -614,7 +703,22 @@ func (e *Engine) translateFunc(key string, preCells []*Cell) (res *funcResult) {
 		return inv
 	}
 	libs := append([]string{}, fc.Uses...)
-	obls, err := GenVCs(t.proc, e.prelude(th, libs))
+	prel := e.prelude(th, libs)
+	if len(fc.Opaque) > 0 {
+		// proving with a defined function left uninterpreted proves it for every function
+		for i, pl := range prel {
+			if strings.HasPrefix(pl, "(define-fun ") {
+				if name, sig, ok := parseFunSig(pl); ok && hasProp(fc.Opaque, name) {
+					args := make([]string, len(sig.Args))
+					for j, a := range sig.Args {
+						args[j] = string(a)
+					}
+					prel[i] = fmt.Sprintf("(declare-fun %s (%s) %s)", name, strings.Join(args, " "), sig.Ret)
+				}
+			}
+		}
+	}
+	obls, err := GenVCs(t.proc, prel)
 	if err != nil {
 		res.Err = err.Error()
 		return
@@ -656,7 +760,43 @@ func (t *fnTrans) emitTopReturn(f *frame, rs []sval) {
 		}
 	}
 	t.cur.Cmds = append(t.cur.Cmds, Cmd{Kind: CAssert, E: False, Name: "canary/return", ExpectSat: true, Props: fc.Props})
+	if len(fc.Ghost) > 0 && !fc.GhostEntry {
+		// ghost update at exit: the listed ghost state is re-defined by the ghostdef clauses
+		// (definitional: each clause fixes the new value in terms of the entry state)
+		eenv := f.bodyEnv(true)
+		for _, g := range fc.Ghost {
+			ge, err := ParseSpec(g)
+			if err != nil {
+				fail("%v", err)
+			}
+			for _, lv := range f.specLvals(ge, eenv) {
+				if lv.kind != lvField || !strings.HasPrefix(lv.heap.Name, "H_$") {
+					fail("ghost: %s is not ghost state", g)
+				}
+				_, es := lv.heap.S.ArrayParts()
+				v := t.havocTemp("ghost", es, lv.typ)
+				t.cur.Assign(lv.heap, Store(lv.heap, lv.idx, v))
+			}
+		}
+		for _, e := range fc.Ensures {
+			if e.Kind == "ghostdef" {
+				t.cur.Assume(f.specBool(e.E, env))
+			}
+		}
+		t.assumptions["ghost state updated at exit by definitional clauses (ghostdef) of "+fc.Pkg+"."+fc.Name] = true
+	}
+	for _, l := range fc.Lemmas {
+		// exit lemmas: proved here, usable by the postconditions that follow, not exported
+		t.cur.Assert(f.specBool(l.E, env), "exit-lemma/"+l.Label, propsOr(l.Props, fc.Props))
+		t.cur.Cmds[len(t.cur.Cmds)-1].Meta = map[string]string{"pos": t.posString()}
+	}
 	for _, e := range fc.Ensures {
+		if e.Kind == "ghostdef" && !fc.GhostEntry {
+			if len(fc.Ghost) == 0 {
+				fail("ghostdef without ghost")
+			}
+			continue
+		}
 		t.cur.Assert(f.specBool(e.E, env), "ensures/"+e.Label, propsOr(e.Props, fc.Props))
 		t.cur.Cmds[len(t.cur.Cmds)-1].Meta = map[string]string{"pos": t.posString()}
 	}
